@@ -79,7 +79,7 @@ class World:
     def worker_moves(self, g):
         opts = []
         for p in g.procs:
-            if p.started and p.exitcode is None:
+            if p.started and p.code is None:
                 if p.todo:
                     opts.append(("wPut", p.index))
                 if p.buf:
@@ -102,16 +102,16 @@ class World:
         elif kind == "wExit":
             if getattr(p, "crashed", False):
                 # the process ends through the uncaught exception: exit status 1, whatever it had not put is lost
-                p.exitcode = 1
+                p.code = 1
                 g.events.append({"e": "wDie", "i": i, "code": 1})
             else:
-                p.exitcode = 0
+                p.code = 0
                 g.events.append({"e": "wExit", "i": i})
         else:
             code = self.death_codes[self.ch.choose(len(self.death_codes))] if len(self.death_codes) > 1 else self.death_codes[0]
             p.lost = p.buf + p.todo
             p.buf, p.todo = [], []
-            p.exitcode = code
+            p.code = code
             self.deaths += 1
             g.events.append({"e": "wDie", "i": i, "code": code})
 
@@ -174,7 +174,8 @@ class FakeProcess:
     def __init__(self, target=None, args=()):
         self.target, self.args = target, args
         self.started = False
-        self.exitcode = None
+        self.code = None
+        self.stopped = False
         self.todo, self.buf, self.lost = [], [], []
         W.new_proc(self)
 
@@ -215,24 +216,43 @@ class FakeProcess:
             W.tick()
             W.let_workers_run(g)
             g.events.append({"e": "pCheck"})
-            g.snapshot = [p.exitcode for p in g.procs]
+            g.snapshot = [p.code for p in g.procs]
         return g.snapshot
 
     def is_alive(self):
+        if self.stopped:
+            return False
         snap = self._check()
         return self.started and snap[self.index] is None
+
+    @property
+    def exitcode(self):
+        """what the parent sees: the liveness snapshot taken at its check after a timeout (one scheduling point, one pCheck event,
+        shared by all exitcode / is_alive reads until the next get)"""
+        if self.stopped or W.cur().outcome == "joined":
+            return self.code
+        return self._check()[self.index]
+
+    def kill(self):
+        # the parent gives up (after it has seen a failed worker): the remaining workers are stopped; nothing the model observes
+        # depends on them any more
+        self.stopped = True
+        if self.code is None:
+            self.code = -9
+
+    terminate = kill
 
     def join(self):
         g = W.cur()
         # after the loop: the remaining live workers finish; nothing the parent does depends on it any more
-        while self.exitcode is None:
+        while self.code is None:
             if self.todo:
                 W.apply(g, ("wPut", self.index))
             elif self.buf:
                 W.apply(g, ("wFlush", self.index))
             else:
                 W.apply(g, ("wExit", self.index))
-        if all(p.exitcode is not None for p in g.procs):
+        if all(p.code is not None for p in g.procs):
             g.outcome = "joined"
 
 
